@@ -19,7 +19,9 @@ EXPLANATION = (
     "bucket precedes the output; (R9) the revealed measurement is exactly the first length-prefixed chunk of the "
     "decrypted payload; (R8) optional-chunk agreement with the writer (aux chunk present iff aux is Some): the "
     "reader must return Some iff a second chunk is present - on the pinned tree it additionally requires the "
-    "chunk to be non-empty, so Some(empty) comes back as None (KNOWN FINDING, DESIGN.md section 5 #9).  NOT decided: "
+    "chunk to be non-empty, so Some(empty) comes back as None (KNOWN FINDING, DESIGN.md section 5 #9); (R10 = C01.R7) the client "
+    "writes exactly that layout - len|measurement, then len|aux iff aux is Some, nothing before, between or after (padding or a "
+    "trailer would reach the reader's second load_bytes).  NOT decided: "
     "decryption correctness, HashMap iteration order effects on the order of outputs.")
 ASSUMPTIONS = ["rayon's map/collect over an indexed parallel iterator preserve one result per input item"]
 TRUSTED = []
@@ -210,6 +212,9 @@ def run(ctx):
     from . import c01
     c01.payload_cipher_agreement(ctx, "C18.R6")
     ctx.floor("C18.R6", 6)
+    # ---- R10 the client writes exactly the layout the reader below walks: len|measurement [len|aux], nothing after it -------
+    c01.payload_framing(ctx, "C18.R10")
+    ctx.floor("C18.R10", 3)
 
     # ---- R7 equality check before output ------------------------------------------------------------------------------------
     div = [e for e in Q.calls(eng, None) if e["diverges"] and e.get("home_fn", e["fn"]).endswith("recover_measurements")]
